@@ -205,7 +205,18 @@ func safeTlogRead(r *tlog.Reader) (e *tlog.Entry, err error) {
 
 // readLog reads entries until the first error.
 func readLog(data []byte, drw *dialect.ReadWriter) ([]*tlog.Entry, error) {
-	r := &tlog.Reader{ByteReader: bytes.NewReader(data), DialectRW: drw}
+	return readLogFrom(bytes.NewReader(data), len(data), drw)
+}
+
+// readLogChunked reads the log from a source that hands out the file in the given piece sizes (then byte by byte):
+// a file read through a pipe, a network file system or a decompressor does not arrive in whole buffers.
+func readLogChunked(data []byte, sizes []int, drw *dialect.ReadWriter) ([]*tlog.Entry, error) {
+	return readLogFrom(&chunkReader{data: data, sizes: sizes, failAt: -1}, len(data), drw)
+}
+
+func readLogFrom(src io.Reader, n int, drw *dialect.ReadWriter) ([]*tlog.Entry, error) {
+	data := make([]byte, n) // only its length matters below
+	r := &tlog.Reader{ByteReader: src, DialectRW: drw}
 	if err := r.Initialize(); err != nil {
 		return nil, fmt.Errorf("BROKEN: %v", err)
 	}
@@ -225,7 +236,7 @@ func readLog(data []byte, drw *dialect.ReadWriter) ([]*tlog.Entry, error) {
 
 func TestC20Logs(t *testing.T) {
 	rec := evid.New(t, "C20", "generated entry sequences (0..30 entries: v1/v2/signed frames, raw and dialect messages, times on both sides of the epoch with sub-microsecond parts, unencodable entries interleaved) written with tlog.Writer; oracles: file bytes == concatenation of BE64(floor(t,us)) ++ reference frame bytes, unencodable entries return an error and leave the file untouched, read-back equals what was written, every truncation point of the file yields exactly the complete entries before the cut and then an error, a failing io.Writer is reported; non-trivial = >=3 entries of mixed versions with a negative or sub-us timestamp, or an unencodable entry between good ones; distinct by hash of the file")
-	rec.Require("cut-in-timestamp", "cut-in-header", "cut-in-payload", "cut-in-signature", "bad-entry-between-good", "negative-time", "sub-us", "writer-fault", "dialect", "longer-than-reader-window", "longer-than-3-reader-windows")
+	rec.Require("cut-in-timestamp", "cut-in-header", "cut-in-payload", "cut-in-signature", "bad-entry-between-good", "negative-time", "sub-us", "writer-fault", "dialect", "longer-than-reader-window", "longer-than-3-reader-windows", "file-arrives-in-pieces")
 	dpool := pool(t)
 	errBoom := errors.New("injected write error")
 	evid.Check(t, rec, evid.N(4000, 12000), func(t *rapid.T) {
@@ -318,6 +329,23 @@ func TestC20Logs(t *testing.T) {
 		for i := range good {
 			if err := sameEntry(entries[i], good[i], di); err != nil {
 				t.Fatalf("entry %d read back differently: %v", i, err)
+			}
+		}
+		// the same file arriving in generated pieces
+		{
+			sizes := rapid.SliceOfN(rapid.OneOf(rapid.IntRange(1, 9), rapid.IntRange(1, 300), rapid.IntRange(3000, 5000)), 0, 40).Draw(t, "piece_sizes")
+			ce, cerr := readLogChunked(file, sizes, drw)
+			if cerr != io.EOF || len(ce) != len(good) {
+				evid.ReplayNote("C20", "TestC20Logs", fmt.Sprintf("file %x\npieces %v\nread %d of %d entries, ended with %v", file, sizes, len(ce), len(good), cerr))
+				t.Fatalf("the log read from a source that delivers it in pieces %v gives %d of %d entries and ends with %v (want io.EOF)", sizes, len(ce), len(good), cerr)
+			}
+			for i := range good {
+				if err := sameEntry(ce[i], good[i], di); err != nil {
+					t.Fatalf("entry %d read back differently when the file arrives in pieces %v: %v", i, sizes, err)
+				}
+			}
+			if len(sizes) > 0 && len(good) > 1 {
+				rec.Class("file-arrives-in-pieces", 1)
 			}
 		}
 		// every truncation point
